@@ -720,8 +720,23 @@ pub fn generate(prop: &str, seed: u64, tier: Tier, index: u64) -> Scenario {
         return gen_c14_enum(seed, index / 4);
     }
     let rs = run_seed(seed, prop, tier, index);
+    // development aid (never set by ./check): draw until the scenario belongs to one sub-family
+    if let Ok(want) = std::env::var("VERIF_SUBFAMILY") {
+        for k in 0..2000u64 {
+            let mut rng = Rng::new(rs ^ k.wrapping_mul(0x9E37_79B9_7F4A_7C15));
+            let sc = generate_with(prop, &mut rng, seed, index, tier == Tier::Thorough);
+            if sc.family == want {
+                return sc;
+            }
+        }
+    }
     let mut rng = Rng::new(rs);
     let long = tier == Tier::Thorough;
+    generate_with(prop, &mut rng, seed, index, long)
+}
+
+fn generate_with(prop: &str, rng: &mut Rng, seed: u64, index: u64, long: bool) -> Scenario {
+    let mut rng = rng;
     match prop {
         "C01" => gen_c01(&mut rng, seed, index, long),
         "C02" => gen_c02(&mut rng, seed, index, long),
@@ -2113,7 +2128,25 @@ pub fn gen_stop_ctrl(rng: &mut Rng, seed: u64, index: u64, long: bool, prop: &st
     let mut text: Vec<u8> = vec![];
     let alpha: Vec<&str> = vec!["a", "b", "c", " ", "x", "é", "日", "本", "\n", "S", "T", "O", "P", "n", "0", "1", "2"];
     let tlen = if long { rng.range(10, 60) } else { rng.range(5, 30) };
+    // some streams contain broken characters (a lead byte that is never completed, a truncated
+    // three-byte character, a lone continuation byte), often right in front of a stop string
+    let broken = rng.chance(0.2);
     for _ in 0..tlen {
+        if broken && rng.chance(0.1) {
+            let frag: &[u8] = match rng.below(5) {
+                0 => &[0xC3],
+                1 => &[0xE6, 0x97],
+                2 => &[0xA9],
+                3 => &[0xF0, 0x9F, 0x98],
+                _ => &[0xE6],
+            };
+            text.extend_from_slice(frag);
+            if rng.chance(0.6) && !stop_strings.is_empty() {
+                let s = rng.pick(&stop_strings).clone();
+                text.extend_from_slice(s.as_bytes());
+            }
+            continue;
+        }
         if rng.chance(0.12) && !stop_strings.is_empty() {
             // plant a stop string or a near miss
             let s = rng.pick(&stop_strings).clone();
